@@ -857,58 +857,20 @@ def rule_G(ctx):
     T = absint.classref(ctx, TRACKQ, fn)
     absint.operator_table(ctx, fn)
 
-    class Pos(orders.PyStub):
-        isa = ('ENUCoords',)
+    # observations, positions and timestamps are the repository's own Obs / ENUCoords / ObsTime objects
+    EN = absint.classref(ctx, 'tracklib.core.obs_coords.ENUCoords', fn)
+    OT = absint.classref(ctx, 'tracklib.core.obs_time.ObsTime', fn)
 
-        def __init__(self, x, y, z):
-            self.c = [float(x), float(y), float(z)]
+    def O(k):
+        return absint.real_obs(ctx, fn, EN(1.0 + k, 10.0 - 2.0 * k, 0.5 * k * k), OT.readUnixTime(100.0 + 3.0 * k), k=k)
 
-        def getX(self):
-            return self.c[0]
+    def xyz_of(o):
+        p_ = o.fields['position'].fields
+        return [p_['E'], p_['N'], p_['U']]
 
-        def getY(self):
-            return self.c[1]
-
-        def getZ(self):
-            return self.c[2]
-
-        def setX(self, v):
-            self.c[0] = v
-
-        def setY(self, v):
-            self.c[1] = v
-
-        def setZ(self, v):
-            self.c[2] = v
-
-        def copy(self):
-            return Pos(*self.c)
-
-    class Stamp(orders.PyStub):
-        isa = ('ObsTime',)
-
-        def __init__(self, t):
-            self.t = float(t)
-
-        def toAbsTime(self):
-            return self.t
-
-        def copy(self):
-            return Stamp(self.t)
-
-    class O(orders.PyStub):
-        isa = ('Obs',)
-
-        def __init__(self, k):
-            self.k = k
-            self.position = Pos(1.0 + k, 10.0 - 2.0 * k, 0.5 * k * k)
-            self.timestamp = Stamp(100.0 + 3.0 * k)
-            self.features = []
-
-        def copy(self):
-            o = O(self.k)
-            o.position, o.timestamp, o.features = self.position.copy(), self.timestamp.copy(), list(self.features)
-            return o
+    def t_of(o):
+        ts = o.fields['timestamp']
+        return ts.call('toAbsTime') if isinstance(ts, orders.Obj) else repr(ts)
     N = 5
     FEATS = {'a': [3.0, -1.5, 0.0, NANV, 2.0], 'b': [2.0, 2.0, -4.0, 1.0, 0.0], 'rate': [1.0, 4.0, 9.0, 16.0, 25.0],
              'p': [1e-20, 2e-20, -1e-20, 5e-20, 1e-20], 'E': [5.0, 6.0, 7.0, 8.0, 9.0], 'w': [4.0, -7.0, 1.0, -7.0, 9.5]}
@@ -1069,7 +1031,7 @@ def rule_G(ctx):
     def snapshot(t):
         names = t.call('getListAnalyticalFeatures')
         vals = {nm: t.call('getAnalyticalFeature', nm) for nm in names}
-        pos = [tuple(o.position.c) + (o.timestamp.t,) for o in t.fields['_Track__POINTS']]
+        pos = [tuple(xyz_of(o)) + (t_of(o),) for o in t.fields['_Track__POINTS']]
         return names, vals, pos
 
     def same_list(u, v):
@@ -1129,7 +1091,7 @@ def rule_G(ctx):
             return
         # assignment
         exp_names = list(before[0]) + ([target] if target not in before[0] and target not in VIRT else [])
-        stored = [o.position.c['xyz'.index(target)] for o in t.fields['_Track__POINTS']] if target in ('x', 'y', 'z') else (after[1].get(target) if target in after[0] else None)
+        stored = [xyz_of(o)['xyz'.index(target)] for o in t.fields['_Track__POINTS']] if target in ('x', 'y', 'z') else (after[1].get(target) if target in after[0] else None)
         if not same_list(stored, want):
             found.setdefault((family, 'stored'), ('with "=" the result is stored under the left-hand name (created or overwritten; written to the coordinate for x, y, z)',
                                                   {'expression': text, 'stored under %s' % target: show(stored), 'expected': show(want)}))
